@@ -19,13 +19,15 @@ deriving Repr
 
 def ATracker.init : ATracker := { k := 0, buf := [], payload := [] }
 
-/-- `store_payload` on the chunk map alone: new key → insert; longer than the stored chunk → replace -/
-def astore (b : Chunks) (a : Nat) (d : Bytes) : Chunks :=
+/-- `store_payload` on the chunk map alone: new key → insert; longer than the stored chunk → replace.
+    `tie` selects what happens when a chunk of the SAME length is already stored: `false` = keep the stored one
+    (`DataTracker::store_payload`), `true` = replace it (`TCPStream::safe_insert` of the legacy follower). -/
+def astore (tie : Bool) (b : Chunks) (a : Nat) (d : Bytes) : Chunks :=
   match lookup b a with
   | none => put b a d
-  | some old => if old.length < d.length then put b a d else b
+  | some old => if decide (old.length < d.length) || (tie && old.length == d.length) then put b a d else b
 
-def adrain : Nat → ATracker → Option Nat → Bool → ATracker × Bool
+def adrain (tie : Bool) : Nat → ATracker → Option Nat → Bool → ATracker × Bool
   | 0, t, _, added => (t, added)
   | fuel + 1, t, iter, added =>
     match iter with
@@ -37,14 +39,14 @@ def adrain : Nat → ATracker → Option Nat → Bool → ATracker × Bool
         if a ≤ t.k then
           if a < t.k then
             if t.k < a + chunk.length then
-              let b := erase (astore t.buf t.k (chunk.drop (t.k - a))) a
-              adrain fuel { t with buf := b } (minKey? (keys b)) added
+              let b := erase (astore tie t.buf t.k (chunk.drop (t.k - a))) a
+              adrain tie fuel { t with buf := b } (minKey? (keys b)) added
             else
               let b := erase t.buf a
-              adrain fuel { t with buf := b } (minKey? (keys b)) added
+              adrain tie fuel { t with buf := b } (minKey? (keys b)) added
           else
             let b := erase t.buf a
-            adrain fuel { k := t.k + chunk.length, payload := t.payload ++ chunk, buf := b } (minKey? (keys b)) true
+            adrain tie fuel { k := t.k + chunk.length, payload := t.payload ++ chunk, buf := b } (minKey? (keys b)) true
         else (t, added)
 
 /-- absolute start under which a segment at offset `off` is stored when the delivery point is `k` -/
@@ -54,10 +56,10 @@ def aData (k : Nat) (off : Int) (data : Bytes) : Bytes :=
   if off < (k : Int) then data.drop ((k : Int) - off).toNat else data
 
 /-- `process_payload` for a segment at absolute offset `off` (negative = before the ISN) -/
-def aprocess (t : ATracker) (off : Int) (data : Bytes) : ATracker × Bool :=
+def aprocess (tie : Bool) (t : ATracker) (off : Int) (data : Bytes) : ATracker × Bool :=
   if off + (data.length : Int) < (t.k : Int) then (t, false)
   else
-    let b := astore t.buf (aStart t.k off) (aData t.k off data)
-    adrain (2 * b.length + 2) { t with buf := b } (if (lookup b t.k).isSome then some t.k else none) false
+    let b := astore tie t.buf (aStart t.k off) (aData t.k off data)
+    adrain tie (2 * b.length + 2) { t with buf := b } (if (lookup b t.k).isSome then some t.k else none) false
 
 end Tins.DT
